@@ -55,6 +55,10 @@ def evaluate(ctx, classify=None):
     progs, feats = c01.collect(ctx, sub="c02names", extra=["--stems", ",".join(stems), "--words", ",".join(words)])
     rows = vlib.read_tsv(os.path.join(ctx.run_dir, "c02names.cases.tsv"))
     meta = {r[0]: r[2:6] for r in rows if len(r) >= 6 and r[1] == "NAME"}
+    # the text oracle's own negative controls: goparse.rs refuses every Go keyword in every identifier position
+    st = next((r for r in rows if r[0] == "#GOPARSE-KEYWORDS"), None)
+    if st is None or st[1] != "ok":
+        ctx.broken_ties.append(("goparse keyword self-test", "missing" if st is None else vlib.unesc(st[2])[:600]))
     lines = [f"{pid}\t{d['stages']['go']}" for pid, d in progs.items() if "go" in d["stages"]]
     res = c01.gocheck(ctx, lines) if lines else {}
     n = collections.Counter()
@@ -125,6 +129,7 @@ def evaluate(ctx, classify=None):
            "rejected_by_front_end": n["rejected"], "rejected_at": dict(rejected_at), "compiler_panics": n["panic"], "rejected_by_gocheck": n["gocheck_rejects"], "first_error_codes": dict(codes),
            "go_words": {"words": len(words), "programs": n["go_word_programs"], "programs_by_class": dict(by_class), "accepted_by_class": dict(acc_class),
                         "classes": "go-keyword: the 25 keywords of the Go specification; go-predeclared: the 44 identifiers of the universe block; runtime-name: helper functions, imports, fixed parameter / field names and gensym prefixes of the emitted file (re-read from go/runtime.rs, go/compile.rs)"},
+           "goparse_keyword_selftest": "11 identifier positions x 25 Go keywords: all refused, the control identifier parses" if st is not None and st[1] == "ok" else "FAILED",
            "stems_read_from_the_rust": stems, "name_test_sites": [f"{f}:{ln} {op} {lit!r}" for f, ln, op, lit in nt["sites"]],
            "accepted_by_item_kind": dict(by_kind), "accepted_by_relation": dict(by_rel), "generator": feats, "samples": samples}
     return cov, found
